@@ -95,6 +95,12 @@ def normalise(text):
             out[i] = ''
             i += 1
             continue
+        # extension types read as plain classes
+        m = re.match(r'cdef\s+class\s+(\w+)\s*(\([^)]*\))?\s*:\s*$', stripped)
+        if m:
+            out[i] = '%sclass %s%s:' % (indent, m.group(1), m.group(2) or '')
+            i += 1
+            continue
         # cdef extern block / ctypedef at top level
         if re.match(r'cdef\s+extern\b', stripped):
             out[i] = ''
@@ -178,6 +184,11 @@ def load(repo):
     except SyntaxError as e:
         raise AnalysisError('%s: normalised Cython does not parse as Python (line %s: %s)'
                             % (REL, e.lineno, e.msg))
+    from . import objflat
+    flattened = objflat.flatten(tree)
     mod = PyModule(REL, text, tree)
     mod.normalised = norm
+    mod.flattened = flattened
+    mod.repo = repo
+    tree._pymodule = mod
     return mod
